@@ -17,6 +17,7 @@ package table
 import (
 	"bytes"
 	"encoding/binary"
+	"math"
 
 	"github.com/B1NARY-GR0UP/originium/pkg/bufferpool"
 	"github.com/B1NARY-GR0UP/originium/types"
@@ -110,6 +111,9 @@ func (i *Index) Encode() ([]byte, error) {
 	w.Write(binary.LittleEndian, i.DataBlock.Length)
 
 	for _, entry := range i.Entries {
+		if len(entry.StartKey) > math.MaxUint16 || len(entry.EndKey) > math.MaxUint16 {
+			return nil, ErrKeyTooLarge
+		}
 		w.Write(binary.LittleEndian, uint16(len(entry.StartKey)))
 		w.Write(binary.LittleEndian, []byte(entry.StartKey))
 		w.Write(binary.LittleEndian, uint16(len(entry.EndKey)))
